@@ -43,7 +43,24 @@ def gen_doc(rng):
     return d, k
 
 
+def uri_text_doc(rng):
+    """URI-valued elements whose text has inner white space next to references (every chunking of the character data must give the same value), and
+    link-like elements that carry MORE THAN ONE of the url / uri / href spellings with different values (their priority must not depend on attribute order)"""
+    t = lambda: rng.choice(["Tom &amp; Jerry: episode %d" % rng.randrange(9), "urn:x y &#38; z", "http://example.org/a b?q=rss&#32;spec&amp;v=2", "id with  two spaces &amp; more", "a &lt; b",
+                            "http://example.org/plain", "tag:example.org,2005:%d" % rng.randrange(99)])
+    if rng.random() < 0.5:
+        items = "".join('<item><title>t%d</title><guid isPermaLink="false">%s</guid><comments>%s</comments><link>%s</link>'
+                        '<enclosure url="http://example.org/a%d.mp3" href="http://mirror.example.net/b%d.mp3" type="audio/mpeg" length="1"/></item>' % (i, t(), t(), t(), i, i) for i in range(rng.randint(1, 3)))
+        return ('<rss version="2.0"><channel><title>c</title><docs>%s</docs><link>%s</link>%s</channel></rss>' % (t(), t(), items)).encode("utf-8"), "uri-text/rss"
+    entries = "".join('<entry><title>t%d</title><id>%s</id><link href="http://example.org/h%d" url="http://example.org/u%d"/><updated>2005-01-01T00:00:00Z</updated></entry>' % (i, t(), i, i)
+                      for i in range(rng.randint(1, 3)))
+    return ('<feed xmlns="http://www.w3.org/2005/Atom"><title>c</title><id>%s</id><icon>%s</icon><logo>%s</logo>'
+            '<generator url="http://example.org/gen03" uri="http://example.org/gen10" version="1">G</generator><updated>2005-01-01T00:00:00Z</updated>%s</feed>' % (t(), t(), t(), entries)).encode("utf-8"), "uri-text/atom"
+
+
 def gen_doc0(rng):
+    if rng.random() < 0.12:
+        return uri_text_doc(rng)
     r = rng.random()
     if r < 0.35:
         af = feedgen.abstract_feed(rng, special=True)
